@@ -6,7 +6,7 @@ C01, step 6: the fragment F and the multinomial law `exec_gf` of the simulator m
 
 * `InF n valid op` — the fragment F, per operation: no `peek`, `peek_all`, `reset_all`; gate placements
   valid; qubits `< n`; classical bits `< 64` (a larger one is a shift-overflow panic, D10); control lists of at
-  most 64 bits `< 64`; `measure_all` in the Z basis with `n` distinct classical bits.
+  most 64 bits `< 64`; `measure_all` (any basis) with `n` distinct classical bits.
 * `op_step`, `exec_gf` (induction over the operation list), `histogram_gf` (from `|0…0⟩`, `N ≥ 1` shots),
   `zero_prob_never`, `gfShot_one` / `exec_total` (a circuit of F never fails: total probability 1).
   The order oracle `ord` of the categorical node must list its input in some order: `(ord l).Perm l`.
@@ -29,7 +29,7 @@ def InF (n : Nat) (valid : GateTerm P → List Nat → Prop) : COp P → Prop
   | .cond control _ g bits => valid g bits ∧ ctlOK control
   | .measure q c _ => q < n ∧ c < 64
   | .reset q => q < n
-  | .measureAll cbits b => b = .Z ∧ cbits.length = n ∧ cbits.Nodup ∧ ∀ c ∈ cbits, c < 64
+  | .measureAll cbits _ => cbits.length = n ∧ cbits.Nodup ∧ ∀ c ∈ cbits, c < 64
   | .barrier _ => True
   | .resetAll => False
   | .peek _ _ _ => False
@@ -54,8 +54,8 @@ theorem op_step (hord : ∀ l, (ord l).Perm l) (H : Hyps α P nz n valid) {rs : 
   | reset q => exact reset_step ord toR H hgood hop hK hg
   | barrier _ => simp only [execOp, expectOrd_pure, stepGf]; exact hK rs hgood
   | measureAll cbits b =>
-    obtain ⟨rfl, h1, h2, h3⟩ := hop
-    exact measureAll_step hord toR H hgood h1 h2 h3 hK hg
+    obtain ⟨h1, h2, h3⟩ := hop
+    exact measureAllB_step hord toR H hgood b h1 h2 h3 hK hg
   | resetAll => exact absurd hop id
   | peek _ _ _ => exact absurd hop id
   | peekAll _ _ => exact absurd hop id
@@ -276,23 +276,28 @@ theorem gfShot_one (H : Hyps α P nz n valid) : ∀ (ops : List (COp P)), (∀ o
         H.sem.iso _ _ vX _ (by rw [project_length]; exact hψ), ← map_add, normSqSum_split H.sim]
     | barrier _ => simp only [stepGf]; exact ih ψ w hψ
     | measureAll cbits b =>
-      obtain ⟨rfl, hlen, hnd, hlt⟩ := hop
+      obtain ⟨hlen, hnd, hlt⟩ := hop
       simp only [stepGf]
+      have hφ := preAll_length (P := P) b ψ hψ
       have hterm : ((List.range (2 ^ n)).map fun idx => gfShot n (⇑toR) (fun _ => (1 : R)) rest
-          (measureAllTo (P := P) n .Z (fun q => qbit n q idx == 1) ψ, wordAll n cbits w idx)) =
-          (List.range (2 ^ n)).map fun idx => toR (SimAmp.normSq (ψ.getD idx 0)) := by
+          (measureAllTo (P := P) n b (fun q => qbit n q idx == 1) ψ, wordAll n cbits w idx)) =
+          (List.range (2 ^ n)).map fun idx => toR (SimAmp.normSq ((Sim.preAll (P := P) n b ψ).getD idx 0)) := by
         apply List.map_congr_left
         intro idx hidx
         have hi := List.mem_range.mp hidx
-        rw [measureAllTo_basis (P := P) n idx hi ψ hψ, ih _ _ (by simp [basisV]), normSqSum_smul H.amp H.sim,
+        have hl : (measureAllTo (P := P) n .Z (fun q => qbit n q idx == 1) (Sim.preAll (P := P) n b ψ)).length = 2 ^ n := by
+          rw [measureAllTo_basis (P := P) n idx hi _ hφ]; simp [basisV]
+        rw [Sim.measureAllTo_basis (P := P) b _ ψ, ih _ _ (postAll_length b _ hl), postAll_norm H b _ hl,
+          measureAllTo_basis (P := P) n idx hi _ hφ, normSqSum_smul H.amp H.sim,
           normSqSum_basisV H.amp H.sim n idx hi, one_mul, H.sim.normSq_eq]
-      have hψ' : (List.range (2 ^ n)).map (fun idx => SimAmp.normSq (ψ.getD idx 0)) = ψ.map SimAmp.normSq := by
+      have hψ' : (List.range (2 ^ n)).map (fun idx => SimAmp.normSq ((Sim.preAll (P := P) n b ψ).getD idx 0)) =
+          (Sim.preAll (P := P) n b ψ).map SimAmp.normSq := by
         apply List.ext_getElem
-        · simp [hψ]
+        · simp [hφ]
         · intro i h1 h2
-          have : i < ψ.length := by simpa using h2
+          have : i < (Sim.preAll (P := P) n b ψ).length := by simpa using h2
           simp [List.getD_eq_getElem?_getD, this]
-      rw [hterm, normSqSum, ← hψ', map_list_sum, List.map_map]
+      rw [hterm, ← preAll_norm H b ψ hψ, normSqSum, ← hψ', map_list_sum, List.map_map]
       rfl
     | resetAll => exact absurd hop id
     | peek _ _ _ => exact absurd hop id
